@@ -76,6 +76,7 @@ type c02Rev struct {
 	// history facts recorded while the corpus is written (they name the history shape in signatures)
 	writtenAsCurrent       bool // this revision was the document's current revision right after it was written
 	supersededWhileCurrent bool // it was the document's current revision when its first child was written
+	epoch                  int  // live part: the grant epoch in which the revision was written
 }
 
 func (r *c02Rev) leaf() bool { return r.children == 0 }
@@ -102,6 +103,8 @@ type c02User struct {
 	direct []string
 	roles  []string
 	eff    map[string]bool // effective channels (incl. "!"), "*" = everything
+	// live part: effective channels per grant epoch (index = epoch)
+	effHist []map[string]bool
 }
 
 func (u *c02User) star() bool { return u.eff["*"] }
@@ -159,6 +162,7 @@ type c02Corpus struct {
 	ops     []string           // admin operations that built the corpus (witness)
 	midSeq  uint64
 	obs     *c02Obs
+	epoch   int // live part: current grant epoch (stamped on every revision written)
 }
 
 func (c *c02Corpus) newMarker(kind c02Kind, doc *c02Doc) *c02Marker {
@@ -237,7 +241,7 @@ func c02RevGen(revID string) int {
 
 // addRev writes one revision through the admin API and records it in the model.
 func (c *c02Corpus) addRev(d *c02Doc, parent *c02Rev, sp c02RevSpec) *c02Rev {
-	r := &c02Rev{doc: d, n: len(d.revs), parent: parent, channels: append([]string{}, sp.channels...), deleted: sp.deleted}
+	r := &c02Rev{doc: d, n: len(d.revs), parent: parent, channels: append([]string{}, sp.channels...), deleted: sp.deleted, epoch: c.epoch}
 	path := "/{{.keyspace}}/" + d.id
 	if sp.bodyless {
 		r.channels = nil
